@@ -10,7 +10,7 @@ namespace UgoVerif.Proofs.Shift
 open UgoVerif UgoVerif.Go UgoVerif.VM
 
 section
-variable {bp k d H N : Nat} {a : Int}
+variable {T0 : State} {bp k d H N : Nat} {a : Int}
 
 theorem setLast_bp (f : Frame) (F : Handler → Handler) : (setLast f F).bp = f.bp := by
   unfold VM.setLast; split <;> rfl
@@ -21,12 +21,12 @@ theorem popHandler_bp (f : Frame) : (popHandler f).bp = f.bp := by
 /-- corresponding updates of the innermost handler -/
 theorem sh_setLast (F G : Handler → Handler) (H' : Nat) (hH : H ≤ H')
     (hFG : ∀ p q, HSh bp H p q → HSh bp H' (F p) (G q)) :
-    RelS (Sh bp k d H N a) (PQ (fun _ _ => True) (Sh bp k d H' N a))
+    RelS (Sh T0 bp k d H N a) (PQ (fun _ _ => True) (Sh T0 bp k d H' N a))
       (setCurFrame fun f => setLast f F) (setCurFrame fun f => setLast f G) :=
   sh_setCurFrame _ _ H' (fun f g x => x.setLast F G hFG hH) hH (fun f => setLast_bp f F)
 
 theorem sh_popHandler :
-    RelS (Sh bp k d H N a) (PQ (fun _ _ => True) (Sh bp k d H N a)) (setCurFrame popHandler) (setCurFrame popHandler) :=
+    RelS (Sh T0 bp k d H N a) (PQ (fun _ _ => True) (Sh T0 bp k d H N a)) (setCurFrame popHandler) (setCurFrame popHandler) :=
   sh_setCurFrame _ _ H (fun f g x => x.popHandler) (Nat.le_refl _) popHandler_bp
 
 macro_rules | `(tactic| sh_prim) => `(tactic| exact sh_popHandler)
@@ -39,7 +39,7 @@ macro_rules | `(tactic| sh_prim) => `(tactic|
 
 /-! ### SETUPTRY -/
 
-theorem sh_execSetupTry (ha : a ≤ N) (hH : H ≤ N) : RelS (Sh bp k d H N a) (PostC bp k) execSetupTry execSetupTry := by
+theorem sh_execSetupTry (ha : a ≤ N) (hH : H ≤ N) : RelS (Sh T0 bp k d H N a) (PostC T0 bp k) execSetupTry execSetupTry := by
   unfold execSetupTry
   sh1; sh1; sh1
   refine RelS.bindV (sh_setCurFrame _ _ (max H a.toNat) (fun f g x => x.push _ _
@@ -49,7 +49,7 @@ theorem sh_execSetupTry (ha : a ≤ N) (hH : H ≤ N) : RelS (Sh bp k d H N a) (
 
 /-! ### SETUPCATCH, SETUPFINALLY -/
 
-theorem sh_execSetupCatch (ha : a ≤ N) (hH : H ≤ N) : RelS (Sh bp k d H N a) (PostC bp k) execSetupCatch execSetupCatch := by
+theorem sh_execSetupCatch (ha : a ≤ N) (hH : H ≤ N) : RelS (Sh T0 bp k d H N a) (PostC T0 bp k) execSetupCatch execSetupCatch := by
   unfold execSetupCatch
   refine RelS.bindV sh_curFrame ?_
   intro f g hfg
@@ -67,7 +67,7 @@ theorem sh_execSetupCatch (ha : a ≤ N) (hH : H ≤ N) : RelS (Sh bp k d H N a)
     shrun
 
 theorem sh_execSetupFinally (ha : a ≤ N) (hH : H ≤ N) :
-    RelS (Sh bp k d H N a) (PostC bp k) execSetupFinally execSetupFinally := by
+    RelS (Sh T0 bp k d H N a) (PostC T0 bp k) execSetupFinally execSetupFinally := by
   unfold execSetupFinally
   refine RelS.bindV sh_curFrame ?_
   intro f g hfg
@@ -77,7 +77,7 @@ theorem sh_execSetupFinally (ha : a ≤ N) (hH : H ≤ N) :
 /-! ### FINALIZER -/
 
 theorem sh_findFinally (upto : Int) : ∀ (fuel : Nat),
-    RelS (Sh bp k d H N a) (PQ Eq (Sh bp k d H N a)) (findFinally fuel upto) (findFinally fuel upto) := by
+    RelS (Sh T0 bp k d H N a) (PQ Eq (Sh T0 bp k d H N a)) (findFinally fuel upto) (findFinally fuel upto) := by
   intro fuel
   induction fuel with
   | zero =>
@@ -108,7 +108,7 @@ theorem sh_findFinally (upto : Int) : ∀ (fuel : Nat),
         · exact RelS.pure (fun _ _ h => ⟨rfl, h⟩)
 
 theorem sh_finalizerRest (n : Nat) (upto : Int) (ha : a ≤ N) (hH : H ≤ N) :
-    RelS (Sh bp k d H N a) (PostC bp k)
+    RelS (Sh T0 bp k d H N a) (PostC T0 bp k)
       (do
         let pos ← findFinally n upto
         if pos ≤ 0 then do
@@ -144,7 +144,7 @@ theorem sh_finalizerRest (n : Nat) (upto : Int) (ha : a ≤ N) (hH : H ≤ N) :
     intro _ _ _
     shrun
 
-theorem sh_execFinalizer (ha : a ≤ N) (hH : H ≤ N) : RelS (Sh bp k d H N a) (PostC bp k) execFinalizer execFinalizer := by
+theorem sh_execFinalizer (ha : a ≤ N) (hH : H ≤ N) : RelS (Sh T0 bp k d H N a) (PostC T0 bp k) execFinalizer execFinalizer := by
   unfold execFinalizer
   sh1
   refine RelS.bindV sh_curFrame ?_
@@ -163,7 +163,7 @@ theorem sh_execFinalizer (ha : a ≤ N) (hH : H ≤ N) : RelS (Sh bp k d H N a) 
 
 /-! ### THROW -/
 
-theorem sh_execThrow (ha : a ≤ N) (hH : H ≤ N) : RelS (Sh bp k d H N a) (PostC bp k) execThrow execThrow := by
+theorem sh_execThrow (ha : a ≤ N) (hH : H ≤ N) : RelS (Sh T0 bp k d H N a) (PostC T0 bp k) execThrow execThrow := by
   unfold execThrow
   sh1; sh1
   split
